@@ -9,6 +9,7 @@ CONSTANTS
   YNorm = TRUE
   Kinds = {"mat", "pert", "resp"}
   ProdTier = "thorough"
+  Seed = 1
 INVARIANT Theorems
 CONSTRAINT Emit
 CHECK_DEADLOCK FALSE
